@@ -314,7 +314,7 @@ def to_node(
         # a version that has only the column we care about.
         #   "x", SELECT x, y FROM foo
         #     => "x", SELECT x FROM foo
-        source: exp.Expr = scope.expression.select(select, append=False)
+        source: exp.Expr = scope.expression.select(select.copy(), append=False)
     else:
         source = scope.expression
 
